@@ -217,7 +217,10 @@ class _RT:
 
     def __init__(self, ctx):
         self.ctx = ctx
-        self.f = f = ctx.func(f"{LE}._retrieve_tracker_rec")
+        from ._helpers_rob_i import nf
+        # private helpers of the class (an extracted `self._rekey(rec, binds)` / `self._run_trackers(binds)`) are read
+        # where they are called; locals stay as written (Sub resolves them)
+        self.f = f = nf(ctx, ctx.func(f"{LE}._retrieve_tracker_rec"), keep=("_invoke_user_fn", "get"), alias=None)
         self.S = S = _S(ctx, f)
         self.g = S.g
         fn = f.node
@@ -781,7 +784,7 @@ def r3(ctx):
               "record's parameter ._with_value(current parameter's value), stored into the per-invocation list", loc(f, rek[0][0]) if rek else loc(f))
     # ---- B5 / B6: bound-value trackers
     ctx.require(rt.trk_iter is not None and rt.trk_call is not None, f"{f.key}: loop over <record>.bindparam_trackers not found")
-    pm = f.module.parents()
+    pm = f.pm if hasattr(f, "pm") else f.module.parents()
     head = rt.trk_iter
     x = rt.trk_iter
     while x is not None and x is not f.node:
@@ -1567,3 +1570,10 @@ R.mutant("benign-r6-loops-restructured", LAM,
                    "            if name in fn.__globals__:\n                candidate = self._roll_down_to_literal(fn.__globals__[name])\n                if not coercions._deep_is_literal(candidate):\n                    continue\n                build_py_wrappers.append((name, None))\n                if not track_bound_values:\n                    continue\n                getter = self._bound_parameter_getter_func_globals(name)\n                bindparam_trackers.append(getter)"),
                sub("            if not pywrapper._sa__has_param:\n                closure_trackers.append(\n                    self._cache_key_getter_tracked_literal(fn, pywrapper)\n                )",
                    "            if pywrapper._sa__has_param:\n                continue\n            closure_trackers.append(\n                self._cache_key_getter_tracked_literal(fn, pywrapper)\n            )")), None)
+
+R.mutant("benign-r3-extracted-helpers", LAM,
+         chain(sub("        else:\n" + _HIT, "        else:\n            self._rekey_closure_binds(rec, bindparams)\n"),
+               sub("    def __getattr__(self, key):\n        return getattr(self._resolved, key)\n\n    @property\n    def _is_sequence(self):",
+                   "    def _rekey_closure_binds(self, rec, bindparams):\n        bindparams[:] = [\n            cached._with_value(fresh.value, maintain_key=True)\n"
+                   "            for cached, fresh in zip(rec.closure_bindparams, bindparams)\n        ]\n\n"
+                   "    def __getattr__(self, key):\n        return getattr(self._resolved, key)\n\n    @property\n    def _is_sequence(self):")), None)
